@@ -118,8 +118,8 @@ CLAIMS = {
                  "media_version_sound / master_version_sound (rfcMin, computed from the written lines alone with RFC 8216 section 7's table incl. the "
                  "MAP-without-I-FRAMES-ONLY rule, never exceeds the emitted version), media_version_not_inflated (emitted <= max(rfcMin, slack) with "
                  "slack 6 for any MAP and 2 for a derived IV; full statement since the fix: that writes KEYFORMATVERSIONS whenever it is set - before it the "
-                 "theorem needed the hypothesis NoDefaultVersions and K4 was its counterexample). The master 'not inflated' direction is covered by the oracle "
-                 "only. Tie/oracle: generated and fixture playlists, the full "
+                 "theorem needed the hypothesis NoDefaultVersions and K4 was its counterexample), master_version_not_inflated (emitted <= max(rfcMin, slack) with "
+                 "slack 2 only for a session key carrying a derived IV, which text cannot express). Tie/oracle: generated and fixture playlists, the full "
                  "on/off lattice of version-relevant features and built playlists; V and the VERSION line must agree between library and model; an "
                  "independent Python scanner recomputes the RFC minimum from the real to_string() text."),
         "design_ref": "DESIGN.md §7 C10",
